@@ -58,6 +58,9 @@ package fluentdforward
 //@   loop 2: invariant buffer[0] == 146 && buffer[1] == 215 && buffer[2] == 0
 //@        && fastmsgpack.be32(buffer, 3) == unixsec(record.Timestamp) % 4294967296 && fastmsgpack.be32(buffer, 7) == nanosec(record.Timestamp)
 //@   loop 2: invariant fastmsgpack.maplenat(buffer, 11) == 1 + vcnt(packer, record, len(packer.fieldMasks))
+//@   loop 2: invariant[environment-is-a-map-of-the-environment-fields] position >= atentry(position) && atentry(position) >= 15
+//@        && fastmsgpack.mapbodyat(buffer, atentry(position) - (len(packer.envFieldLocators) < 16 ? 1 : 3)) == atentry(position)
+//@        && fastmsgpack.maplenat(buffer, atentry(position) - (len(packer.envFieldLocators) < 16 ? 1 : 3)) == len(packer.envFieldLocators)
 
 // the bound SerializeRecord compares with the buffer before encoding: exactly the left side of encodeRecord's [fits]
 //@ func (packer *eventSerializer) maxEncodedLength(record *base.LogRecord) int
